@@ -100,10 +100,15 @@ func (a *vfActor) execSched(ctx vivid.ActorContext, c *vfSchedCmd) {
 	}
 }
 
-func vfGenSchedProgram(rng *verifrt.Rand) (owners []string, prog []vfSchedOp) {
+// launch loops: owner -> interval of a Loop job the owner schedules from OnLaunch in every incarnation (message id 9000+i)
+func vfGenSchedProgram(rng *verifrt.Rand) (owners []string, prog []vfSchedOp, launchLoop map[string]time.Duration) {
 	no := 1 + rng.Intn(3)
+	launchLoop = map[string]time.Duration{}
 	for i := 0; i < no; i++ {
 		owners = append(owners, fmt.Sprintf("o%d", i))
+		if rng.Chance(40) {
+			launchLoop[owners[i]] = []time.Duration{100 * time.Millisecond, 333 * time.Millisecond}[rng.Intn(2)]
+		}
 	}
 	delays := []time.Duration{1, time.Microsecond, time.Millisecond, 10 * time.Millisecond, 100 * time.Millisecond, 500 * time.Millisecond, 2 * time.Second, time.Hour}
 	intervals := []time.Duration{7 * time.Millisecond, 50 * time.Millisecond, 100 * time.Millisecond, 333 * time.Millisecond, time.Second, time.Hour}
@@ -211,8 +216,66 @@ type vfFire struct {
 }
 
 // vfSchedModel returns required and allowed firings: job -> instants.
-func vfSchedModel(owners []string, prog []vfSchedOp, horizon time.Duration) (required, allowed map[int][]time.Duration, recvOf map[int]string) {
+func vfSchedModel(owners []string, prog []vfSchedOp, launchLoop map[string]time.Duration, horizon time.Duration) (required, allowed map[int][]time.Duration, recvOf map[int]string) {
 	required, allowed, recvOf = map[int][]time.Duration{}, map[int][]time.Duration{}, map[int]string{}
+	// launch loops: (re)started at every incarnation, cleared by Clear / restart / kill
+	for oi, o := range owners {
+		iv, ok := launchLoop[o]
+		if !ok {
+			continue
+		}
+		id := 9000 + oi
+		recvOf[id] = o
+		// walk the owner's timeline: the job runs from each (re)launch until the next clear / restart / kill
+		type seg struct{ from, to time.Duration }
+		var segs []seg
+		running, from := true, time.Duration(0)
+		for _, p := range prog {
+			if p.Owner != o {
+				continue
+			}
+			switch p.Op {
+			case "fail": // restart: Clear, then OnLaunch schedules it again at the same instant
+				if running {
+					segs = append(segs, seg{from, p.At})
+				}
+				running, from = true, p.At
+			case "clear":
+				if running {
+					segs = append(segs, seg{from, p.At})
+				}
+				running = false
+			case "kill":
+				if running {
+					segs = append(segs, seg{from, p.At})
+				}
+				running = false
+			}
+			if p.Op == "kill" {
+				break
+			}
+		}
+		killedOwner := false
+		for _, p := range prog {
+			if p.Owner == o && p.Op == "kill" {
+				killedOwner = true
+			}
+		}
+		_ = killedOwner
+		if running {
+			segs = append(segs, seg{from, 1<<62 - 1})
+		}
+		for _, sg := range segs {
+			for t := sg.from + iv; t <= horizon; t += iv {
+				if t < sg.to {
+					required[id] = append(required[id], t)
+				}
+				if t <= sg.to {
+					allowed[id] = append(allowed[id], t)
+				}
+			}
+		}
+	}
 	dead := map[string]time.Duration{} // owner -> instant of kill
 	for _, o := range prog {
 		if o.Op == "kill" {
@@ -295,7 +358,7 @@ func vfSchedModel(owners []string, prog []vfSchedOp, horizon time.Duration) (req
 	return
 }
 
-func vfRunSched(owners []string, prog []vfSchedOp, res *vfCellResult) {
+func vfRunSched(owners []string, prog []vfSchedOp, launchLoop map[string]time.Duration, res *vfCellResult) {
 	w := newVfWorld()
 	res.w = w
 	add := func(kind, key, f string, a ...any) {
@@ -306,8 +369,12 @@ func vfRunSched(owners []string, prog []vfSchedOp, res *vfCellResult) {
 		return
 	}
 	sup := &vfSpec{Name: "sup", Strategy: vfStratOne, Decisions: []vivid.SupervisionDecision{vivid.SupervisionDecisionRestart}}
-	for _, o := range owners {
-		sup.Children = append(sup.Children, &vfSpec{Name: o})
+	for oi, o := range owners {
+		cs := &vfSpec{Name: o}
+		if iv, ok := launchLoop[o]; ok {
+			cs.Loop, cs.LoopID = iv, 9000+oi
+		}
+		sup.Children = append(sup.Children, cs)
 	}
 	if _, err := w.spawnTop(sup); err != nil {
 		add("harness-error", "spawn", "%v", err)
@@ -344,7 +411,7 @@ func vfRunSched(owners []string, prog []vfSchedOp, res *vfCellResult) {
 		time.Sleep(d)
 	}
 	w.wait()
-	required, allowed, recvOf := vfSchedModel(owners, prog, horizon)
+	required, allowed, recvOf := vfSchedModel(owners, prog, launchLoop, horizon)
 	got := map[int][]time.Duration{}
 	for _, e := range w.snapshot() {
 		switch {
@@ -430,7 +497,7 @@ func vfClipDur(d []time.Duration) string {
 }
 
 func TestVerif_scheduler(t *testing.T) {
-	R := verifrt.NewReport("scheduler", "PRNG programs over 1-3 owner actors under a restarting supervisor: 3-30 timed steps from {Once (delays 1ns..1h), Loop (intervals 7ms..1h), Cron (3 second-granular expressions), Cron with 15 malformed expressions, Cancel (40% aimed at a firing instant, +-1 ms), Cancel(unknown), Clear, Kill poison/immediate, fail-and-restart}; receivers self / other owner / an already dead actor; same reference string on different actors; executed in a synctest bubble (exact virtual clock) and observed for 4.5 virtual seconds; every delivery instant is compared with a reference model: required firings (strictly before the job's end) must occur exactly once, nothing outside the allowed set (<= end; ties at the end instant accepted either way). non-trivial+distinct = distinct programs (by text) with >= 1 job and >= 1 observed firing")
+	R := verifrt.NewReport("scheduler", "PRNG programs over 1-3 owner actors under a restarting supervisor: 3-30 timed steps from {Once (delays 1ns..1h), Loop (intervals 7ms..1h), Cron (3 second-granular expressions), Cron with 15 malformed expressions, Cancel (40% aimed at a firing instant, +-1 ms), Cancel(unknown), Clear, Kill poison/immediate, fail-and-restart}; receivers self / other owner / an already dead actor; 40% of the owners additionally schedule a Loop from OnLaunch in every incarnation; same reference string on different actors; executed in a synctest bubble (exact virtual clock) and observed for 4.5 virtual seconds; every delivery instant is compared with a reference model: required firings (strictly before the job's end) must occur exactly once, nothing outside the allowed set (<= end; ties at the end instant accepted either way). non-trivial+distinct = distinct programs (by text) with >= 1 job and >= 1 observed firing")
 	defer R.Flush()
 	n := verifrt.EnvInt("VERIF_N", 3000)
 	if verifrt.Thorough() {
@@ -442,15 +509,18 @@ func TestVerif_scheduler(t *testing.T) {
 			continue
 		}
 		rng := verifrt.NewRand(verifrt.CaseSeed("scheduler", ci))
-		owners, prog := vfGenSchedProgram(rng)
+		owners, prog, launchLoop := vfGenSchedProgram(rng)
 		var ps []string
+		for _, o := range verifrt.SortedKeys(launchLoop) {
+			ps = append(ps, fmt.Sprintf("%s.onLaunch:loop(%v)", o, launchLoop[o]))
+		}
 		for _, o := range prog {
 			ps = append(ps, o.String())
 		}
 		desc := strings.Join(ps, " ; ")
 		R.Journal(ci, desc)
 		res := &vfCellResult{}
-		hang, stacks, pan := vfBubble(t, 90*time.Second, func() { vfRunSched(owners, prog, res) })
+		hang, stacks, pan := vfBubble(t, 90*time.Second, func() { vfRunSched(owners, prog, launchLoop, res) })
 		R.Eval()
 		viols := res.viols
 		if hang {
